@@ -125,6 +125,18 @@ func (a *api4) Prepare(ctx context.Context, xid int, verdict func(int, bool) boo
 	}
 }
 
+// Fire: Release of a lease whose ACK names server 10.77.0.<x>; the RELEASE carries the caller's transaction id
+func (a *api4) Fire(xid int) (*net.UDPAddr, func() error, bool) {
+	srv := net.IPv4(10, 77, 0, byte(1+xid%200)).To4()
+	ack, err := dhcpv4.New(dhcpv4.WithMessageType(dhcpv4.MessageTypeAck), dhcpv4.WithYourIP(net.IPv4(10, 77, 1, 9)), dhcpv4.WithHwAddr(mac),
+		dhcpv4.WithServerIP(srv), dhcpv4.WithOption(dhcpv4.OptServerIdentifier(srv)), dhcpv4.WithLeaseTime(3600))
+	if err != nil {
+		panic(err)
+	}
+	lease := &nclient4.Lease{Offer: ack, ACK: ack, CreationTime: time.Now()}
+	return &net.UDPAddr{IP: srv, Port: 67}, func() error { return a.c.Release(lease, dhcpv4.WithTransactionID(xid4(xid))) }, true
+}
+
 func (a *api4) Close() error { return a.c.Close() }
 
 func (a *api4) Classify(err error) string {
@@ -276,6 +288,8 @@ func (a *api6) Prepare(ctx context.Context, xid int, verdict func(int, bool) boo
 		return a.IDOf(resp), resp == nil, nil
 	}
 }
+
+func (a *api6) Fire(xid int) (*net.UDPAddr, func() error, bool) { return nil, nil, false } // nclient6 has no such call
 
 func (a *api6) Close() error { return a.c.Close() }
 
